@@ -963,7 +963,7 @@ def run(ctx):
         # ---- injections
         jobs, reqs2, slots = [], [], []
         k = 0
-        fresh_left = ctx.n(12, 240)               # reproduce() after save/load in a FRESH interpreter (≈ 1 s each, in the workers)
+        fresh_left = ctx.n(9, 240)                # reproduce() after save/load in a FRESH interpreter (≈ 1 s each, in the workers)
         for (kind, d, rr), resp in zip(metas, outs):
             r = resp["r"]
             if kind == "map":
@@ -1037,7 +1037,7 @@ def run(ctx):
             for inj, obs in zip(job["injections"], obs_list):
                 judge(ctx, job["kind"], job["desc"], inj, obs)
         # ---- stream `snapfile`: ErrorSnapshot.save_to_file / load_from_file against the file model (Props/C13File.lean)
-        c13_file.run_stream(ctx, base, ctx.n(150, 1500))
+        c13_file.run_stream(ctx, base, ctx.n(110, 1500))
     finally:
         if const_env is None:
             os.environ.pop("VERIF_CONST", None)
